@@ -36,13 +36,13 @@ type OperatorRow struct {
 	OperatorShare   *big.Int
 }
 type UndRow struct {
-	Key                      string
-	Staker, Asset, Operator  string
-	TxHash                   string
-	Nonce                    uint64
-	Start, Complete          uint64
-	Amount, Actual           *big.Int
-	Hold                     uint64
+	Key                     string
+	Staker, Asset, Operator string
+	TxHash                  string
+	Nonce                   uint64
+	Start, Complete         uint64
+	Amount, Actual          *big.Int
+	Hold                    uint64
 }
 type DelRow struct {
 	Share *big.Int // 18-decimal fixed point
